@@ -54,12 +54,14 @@ Record st := {
   recv_notifs : list N;             (* notifications dispatched, in order *)
   taken : list N;                   (* notifications returned by take_notification, in order *)
   bcast : option exc;               (* the error the worker broadcast to the listeners, if it did *)
-  eof_seen : bool                   (* the worker read end-of-file (the peer closed) *)
+  eof_seen : bool;                  (* the worker read end-of-file (the peer closed) *)
+  lst : bool;                       (* the session's RPCReplyListener exists (created by the first RPC.__init__) *)
+  skipok : bool                     (* no reply listener existed when the error broadcast started *)
 }.
 
 Definition init (q : bool) : st :=
   {| reqs := []; table := []; outq := []; nq := []; connected := true; closing := false; pc := WIdle;
-     qualify := q; wrote := []; deliver_log := []; recv_notifs := []; taken := []; bcast := None; eof_seen := false |}.
+     qualify := q; wrote := []; deliver_log := []; recv_notifs := []; taken := []; bcast := None; eof_seen := false; lst := false; skipok := false |}.
 
 Inductive label :=
 | LReg (rid : nat) (id : N)
@@ -75,6 +77,7 @@ Inductive label :=
 | LTDel (id : N)
 | LReadEof
 | LReadErr
+| LWriteFail                      (* _transport_write returned <= 0: SessionCloseError raised in the loop *)
 | LTValues (ids : list N)
 | LTClear
 | LEvSetErr (rid : nat)
@@ -132,52 +135,61 @@ Definition wait_outcome (r : req) (flag : bool) : outcome :=
 Definition with_reqs (s : st) (x : list req) : st :=
   {| reqs := x; table := table s; outq := outq s; nq := nq s; connected := connected s; closing := closing s;
      pc := pc s; qualify := qualify s; wrote := wrote s; deliver_log := deliver_log s;
-     recv_notifs := recv_notifs s; taken := taken s; bcast := bcast s; eof_seen := eof_seen s |}.
+     recv_notifs := recv_notifs s; taken := taken s; bcast := bcast s; eof_seen := eof_seen s; lst := lst s; skipok := skipok s |}.
 Definition with_table (s : st) (x : list (N * nat)) : st :=
   {| reqs := reqs s; table := x; outq := outq s; nq := nq s; connected := connected s; closing := closing s;
      pc := pc s; qualify := qualify s; wrote := wrote s; deliver_log := deliver_log s;
-     recv_notifs := recv_notifs s; taken := taken s; bcast := bcast s; eof_seen := eof_seen s |}.
+     recv_notifs := recv_notifs s; taken := taken s; bcast := bcast s; eof_seen := eof_seen s; lst := lst s; skipok := skipok s |}.
 Definition with_pc (s : st) (x : wpc) : st :=
   {| reqs := reqs s; table := table s; outq := outq s; nq := nq s; connected := connected s; closing := closing s;
      pc := x; qualify := qualify s; wrote := wrote s; deliver_log := deliver_log s;
-     recv_notifs := recv_notifs s; taken := taken s; bcast := bcast s; eof_seen := eof_seen s |}.
+     recv_notifs := recv_notifs s; taken := taken s; bcast := bcast s; eof_seen := eof_seen s; lst := lst s; skipok := skipok s |}.
 Definition with_outq (s : st) (x : list nat) : st :=
   {| reqs := reqs s; table := table s; outq := x; nq := nq s; connected := connected s; closing := closing s;
      pc := pc s; qualify := qualify s; wrote := wrote s; deliver_log := deliver_log s;
-     recv_notifs := recv_notifs s; taken := taken s; bcast := bcast s; eof_seen := eof_seen s |}.
+     recv_notifs := recv_notifs s; taken := taken s; bcast := bcast s; eof_seen := eof_seen s; lst := lst s; skipok := skipok s |}.
 Definition with_nq (s : st) (x : list N) : st :=
   {| reqs := reqs s; table := table s; outq := outq s; nq := x; connected := connected s; closing := closing s;
      pc := pc s; qualify := qualify s; wrote := wrote s; deliver_log := deliver_log s;
-     recv_notifs := recv_notifs s; taken := taken s; bcast := bcast s; eof_seen := eof_seen s |}.
+     recv_notifs := recv_notifs s; taken := taken s; bcast := bcast s; eof_seen := eof_seen s; lst := lst s; skipok := skipok s |}.
 Definition with_closed (s : st) : st :=
   {| reqs := reqs s; table := table s; outq := outq s; nq := nq s; connected := false; closing := true;
      pc := pc s; qualify := qualify s; wrote := wrote s; deliver_log := deliver_log s;
-     recv_notifs := recv_notifs s; taken := taken s; bcast := bcast s; eof_seen := eof_seen s |}.
+     recv_notifs := recv_notifs s; taken := taken s; bcast := bcast s; eof_seen := eof_seen s; lst := lst s; skipok := skipok s |}.
 Definition with_wrote (s : st) (x : list nat) : st :=
   {| reqs := reqs s; table := table s; outq := outq s; nq := nq s; connected := connected s; closing := closing s;
      pc := pc s; qualify := qualify s; wrote := x; deliver_log := deliver_log s;
-     recv_notifs := recv_notifs s; taken := taken s; bcast := bcast s; eof_seen := eof_seen s |}.
+     recv_notifs := recv_notifs s; taken := taken s; bcast := bcast s; eof_seen := eof_seen s; lst := lst s; skipok := skipok s |}.
 Definition with_dlog (s : st) (x : list nat) : st :=
   {| reqs := reqs s; table := table s; outq := outq s; nq := nq s; connected := connected s; closing := closing s;
      pc := pc s; qualify := qualify s; wrote := wrote s; deliver_log := x;
-     recv_notifs := recv_notifs s; taken := taken s; bcast := bcast s; eof_seen := eof_seen s |}.
+     recv_notifs := recv_notifs s; taken := taken s; bcast := bcast s; eof_seen := eof_seen s; lst := lst s; skipok := skipok s |}.
 Definition with_rnot (s : st) (x : list N) : st :=
   {| reqs := reqs s; table := table s; outq := outq s; nq := nq s; connected := connected s; closing := closing s;
      pc := pc s; qualify := qualify s; wrote := wrote s; deliver_log := deliver_log s;
-     recv_notifs := x; taken := taken s; bcast := bcast s; eof_seen := eof_seen s |}.
+     recv_notifs := x; taken := taken s; bcast := bcast s; eof_seen := eof_seen s; lst := lst s; skipok := skipok s |}.
 Definition with_taken (s : st) (x : list N) : st :=
   {| reqs := reqs s; table := table s; outq := outq s; nq := nq s; connected := connected s; closing := closing s;
      pc := pc s; qualify := qualify s; wrote := wrote s; deliver_log := deliver_log s;
-     recv_notifs := recv_notifs s; taken := x; bcast := bcast s; eof_seen := eof_seen s |}.
+     recv_notifs := recv_notifs s; taken := x; bcast := bcast s; eof_seen := eof_seen s; lst := lst s; skipok := skipok s |}.
 
 Definition with_bcast (s : st) (x : option exc) : st :=
   {| reqs := reqs s; table := table s; outq := outq s; nq := nq s; connected := connected s; closing := closing s;
      pc := pc s; qualify := qualify s; wrote := wrote s; deliver_log := deliver_log s;
-     recv_notifs := recv_notifs s; taken := taken s; bcast := x; eof_seen := eof_seen s |}.
+     recv_notifs := recv_notifs s; taken := taken s; bcast := x; eof_seen := eof_seen s; lst := lst s; skipok := skipok s |}.
 Definition with_eof (s : st) : st :=
   {| reqs := reqs s; table := table s; outq := outq s; nq := nq s; connected := connected s; closing := closing s;
      pc := pc s; qualify := qualify s; wrote := wrote s; deliver_log := deliver_log s;
-     recv_notifs := recv_notifs s; taken := taken s; bcast := bcast s; eof_seen := true |}.
+     recv_notifs := recv_notifs s; taken := taken s; bcast := bcast s; eof_seen := true; lst := lst s; skipok := skipok s |}.
+
+Definition with_lst (s : st) : st :=
+  {| reqs := reqs s; table := table s; outq := outq s; nq := nq s; connected := connected s; closing := closing s;
+     pc := pc s; qualify := qualify s; wrote := wrote s; deliver_log := deliver_log s;
+     recv_notifs := recv_notifs s; taken := taken s; bcast := bcast s; eof_seen := eof_seen s; lst := true; skipok := skipok s |}.
+Definition with_skipok (s : st) (x : bool) : st :=
+  {| reqs := reqs s; table := table s; outq := outq s; nq := nq s; connected := connected s; closing := closing s;
+     pc := pc s; qualify := qualify s; wrote := wrote s; deliver_log := deliver_log s;
+     recv_notifs := recv_notifs s; taken := taken s; bcast := bcast s; eof_seen := eof_seen s; lst := lst s; skipok := x |}.
 
 Definition is_idle (p : wpc) : bool := match p with WIdle => true | _ => false end.
 (* the worker holds the pending-table lock (RPCReplyListener._lock): from the lookup that found
@@ -190,8 +202,8 @@ Definition step (s : st) (l : label) : option st :=
   match l with
   | LReg rid id =>
       if Nat.eqb rid (length (reqs s)) && negb (memN id (map r_id (reqs s))) && negb (holds_tlock (pc s)) then
-        Some (with_table (with_reqs s (reqs s ++ [{| r_id := id; r_st := CReg; r_reply := None; r_error := None; r_ev := false |}]))
-                         (tset id rid (table s)))
+        Some (with_lst (with_table (with_reqs s (reqs s ++ [{| r_id := id; r_st := CReg; r_reply := None; r_error := None; r_ev := false |}]))
+                                   (tset id rid (table s))))
       else None
   | LChk rid b =>
       match nth_error (reqs s) rid with
@@ -222,9 +234,10 @@ Definition step (s : st) (l : label) : option st :=
       end
   | LRecv kind arg =>
       if is_idle (pc s) then
-        if N.eqb kind 0 then Some (with_pc s (WLookup arg))
+        if N.eqb kind 2 then Some (with_pc (with_rnot s (recv_notifs s ++ [arg])) (WNotif arg))
+        else if negb (lst s) then (if N.leb kind 4 then Some s else None)    (* no reply listener yet: ignored *)
+        else if N.eqb kind 0 then Some (with_pc s (WLookup arg))
         else if N.eqb kind 1 then Some (with_pc s (WRaise 2))
-        else if N.eqb kind 2 then Some (with_pc (with_rnot s (recv_notifs s ++ [arg])) (WNotif arg))
         else if N.eqb kind 3 then Some (if qualify s then s else with_pc s (WLookup arg))
         else if N.eqb kind 4 then Some (if qualify s then s else with_pc s (WRaise 2))
         else None
@@ -261,10 +274,11 @@ Definition step (s : st) (l : label) : option st :=
       end
   | LReadEof => if is_idle (pc s) then Some (with_pc (with_eof s) (WRaise 1)) else None
   | LReadErr => if is_idle (pc s) then Some (with_pc s (WRaise 3)) else None
+  | LWriteFail => if is_idle (pc s) then Some (with_pc s (WRaise 1)) else None
   | LErrBcast e =>
       match pc s with
-      | WRaise e' => if N.eqb e e' then Some (with_pc (with_bcast s (Some e)) (WErrSnap e)) else None
-      | WIdle => if closing s && N.eqb e 1 then Some (with_pc (with_bcast s (Some e)) (WErrSnap e)) else None   (* clean exit *)
+      | WRaise e' => if N.eqb e e' then Some (with_pc (with_skipok (with_bcast s (Some e)) (negb (lst s))) (WErrSnap e)) else None
+      | WIdle => if closing s && N.eqb e 1 then Some (with_pc (with_skipok (with_bcast s (Some e)) (negb (lst s))) (WErrSnap e)) else None   (* clean exit *)
       | _ => None
       end
   | LTValues ids =>
@@ -287,6 +301,7 @@ Definition step (s : st) (l : label) : option st :=
       if N.eqb who 0 then
         match pc s with
         | WErrDeliver e [] => Some (with_pc (with_closed s) WClosed)
+        | WErrSnap e => if skipok s then Some (with_pc (with_closed s) WClosed) else None   (* no reply listener to notify *)
         | _ => None
         end
       else Some (with_closed s)
@@ -294,6 +309,7 @@ Definition step (s : st) (l : label) : option st :=
       match pc s with
       | WClosed => Some (with_pc s WExited)
       | WErrDeliver e [] => if closing s then Some (with_pc s WExited) else None
+      | WErrSnap e => if skipok s && closing s then Some (with_pc s WExited) else None
       | _ => None
       end
   | LTake got n =>
